@@ -339,6 +339,8 @@ def run(ctx: Ctx):
     scan_mods = mods + [core, base_tenalg, repo.module("tensorly")]
 
     ctx.guarded(rule_R1, ctx, scan_mods)
+    res.rule("R7", "no shadowing: a manager module is an instance of its manager class, and the dispatched functions / attributes are (non-data) descriptors on that class -- so a module-level binding of the same name (an import, an assignment, a def) in the manager's module wins over the dispatcher and pins one backend's implementation for every thread and selection. No name listed in `_functions` / `_attributes` is bound at module level in its manager's module", floor=2)
+    ctx.guarded(rule_R7, ctx, mods, mgrs)
     ctx.guarded(rule_R2, ctx, mgrs)
     ctx.guarded(rule_R3, ctx, scan_mods, mgrs)
     ctx.guarded(rule_R4, ctx, mgrs)
@@ -445,6 +447,40 @@ def rule_R1(ctx: Ctx, scan_mods):
             ctx.finding("R1", g, r, "dispatched attribute is not read from the calling thread's active backend")
     if not rets:
         raise AnalysisError("dynamically_dispatched_class_attribute.__get__ has no return")
+
+
+def rule_R7(ctx: Ctx, mods, mgrs):
+    res = ctx.res
+    for mod, mgr in zip(mods, mgrs):
+        names = []
+        for st in mgr.node.body:
+            if isinstance(st, ast.Assign) and len(st.targets) == 1 and isinstance(st.targets[0], ast.Name) and st.targets[0].id in ("_functions", "_attributes") and isinstance(st.value, (ast.List, ast.Tuple)):
+                names += [e.value for e in st.value.elts if isinstance(e, ast.Constant) and isinstance(e.value, str)]
+        if not names:
+            raise AnalysisError(f"R7: {mgr.qname} no longer lists its dispatched names in `_functions` / `_attributes`; cannot decide")
+        bound = {}
+        for st in mod.tree.body:
+            if isinstance(st, (ast.Import, ast.ImportFrom)):
+                for a in st.names:
+                    bound.setdefault((a.asname or a.name).split(".")[0], st)
+            elif isinstance(st, (ast.FunctionDef, ast.AsyncFunctionDef, ast.ClassDef)):
+                bound.setdefault(st.name, st)
+            elif isinstance(st, (ast.Assign, ast.AnnAssign, ast.AugAssign)):
+                for t in (st.targets if isinstance(st, ast.Assign) else [st.target]):
+                    for x in ast.walk(t):
+                        if isinstance(x, ast.Name) and isinstance(x.ctx, ast.Store):
+                            bound.setdefault(x.id, st)
+            elif isinstance(st, (ast.For, ast.With, ast.Try, ast.If, ast.While)):
+                for x in ast.walk(st):
+                    if isinstance(x, ast.Name) and isinstance(x.ctx, ast.Store):
+                        bound.setdefault(x.id, st)
+                    elif isinstance(x, (ast.Import, ast.ImportFrom)):
+                        for a in x.names:
+                            bound.setdefault((a.asname or a.name).split(".")[0], x)
+        clash = sorted(set(names) & set(bound))
+        res.instance("R7", f"{mod.name}: {len(names)} dispatched names against {len(bound)} module-level bindings", sample={"shadowed": clash, "ok": not clash})
+        for nm in clash:
+            ctx.finding("R7", mod, bound[nm], f"`{nm}` is dispatched by {mgr.name} (listed in _functions / _attributes) but also bound at module level in {mod.name} by `{src(bound[nm])[:80]}`: the module object is an instance of the manager class and its own namespace is looked up before the class, so `{mod.name.rsplit('.', 1)[-1]}.{nm}` is this fixed object whatever backend a thread has selected", construct=f"{mod.name}: module-level `{nm}` shadows the dispatcher")
 
 
 def rule_R2(ctx: Ctx, mgrs):
